@@ -20,11 +20,7 @@ _CLS = 'dtype_class'
 contract(UTIL, 'resolve_dtype',
     props=['C07'],
     params=dict(dt1='dtype', dt2='dtype'), order=['dt1', 'dt2'], result='dtype',
-    requires=[
-        # np.bool_ is the only dtype of kind b, object the only one of kind O (assumed NumPy facts)
-        'implies(kind_is(dt1, "O"), dt1 == DTYPE_OBJECT)', 'implies(kind_is(dt2, "O"), dt2 == DTYPE_OBJECT)',
-        'implies(kind_is(dt1, "b"), dt1 == DTYPE_BOOL)', 'implies(kind_is(dt2, "b"), dt2 == DTYPE_BOOL)',
-    ],
+    requires=[],      # (object / bool dtype uniqueness are global assumed NumPy axioms, see pyvc/npmodel.py DTYPE_AXIOMS)
     ensures=[
         'implies(dt1 == dt2, result == dt1)',
         'implies(kind_is(dt1, "O") or kind_is(dt2, "O"), result == DTYPE_OBJECT)',
@@ -33,6 +29,7 @@ contract(UTIL, 'resolve_dtype',
         # within one class the NumPy common type is used (or object when NumPy has none)
         f'implies({_CLS}(dt1) == {_CLS}(dt2) and dt1 != dt2 and not kind_is(dt1, "O"), result == np_result_type(dt1, dt2) or result == DTYPE_OBJECT)',
         f'implies({_CLS}(dt1) == {_CLS}(dt2) and dt1 != dt2 and not kind_is(dt1, "O", "m"), result == np_result_type(dt1, dt2))',
+        'holds(result, dt1) and holds(result, dt2)',       # relative to the assumed NumPy axioms on np.result_type
     ])
 
 # ---------------------------------------------------------------------------------------------
@@ -152,3 +149,26 @@ contract(TB, 'TypeBlocks.from_blocks',
             'forall_in(0, column_count, lambda q: at(index, q) == at(index_before, q) and at(dtypes, q) == at(dtypes_before, q))']),
     },
     ensures=['Dir(result)', 'Frozen(result)', 'RowDtypeHolds(result)', 'implies(len(result._blocks) == 0, is_none(result._row_dtype))'])
+
+# concat_resolved: allocates the RESOLVED dtype before concatenating (C07 "no lossy coercion", C11)
+contract(UTIL, 'concat_resolved',
+    props=['C07', 'C11'],
+    params=dict(arrays='list[arr]', axis='opt[int]'), order=['arrays', 'axis'], defaults=dict(axis='0'),
+    result='arr',
+    requires=['forall_in(0, len(arrays), lambda k: at(arrays, k).ndim == at(arrays, 0).ndim and (at(arrays, k).ndim == 1 or at(arrays, k).ndim == 2))',
+              'implies(not is_none(axis), 0 <= axis and axis < at(arrays, 0).ndim)',
+              ],
+    raises={'NotImplementedError': 'is_none(axis)', 'StopIteration': 'not is_none(axis) and len(arrays) == 0', 'ValueError': True},
+    n_loops=1,
+    loops={0: dict(index='t', locals=dict(dt_resolve='dtype', shape='list[int]'), invariant=[
+        'len(shape) == at(arrays, 0).ndim',
+        # the running dtype holds every array seen so far (array 0 and arrays 1..t)
+        'forall_in(0, t + 1, lambda k: holds(dt_resolve, at(arrays, k).dtype))',
+        'implies(forall_in(0, t + 1, lambda k: at(arrays, k).dtype == at(arrays, 0).dtype), dt_resolve == at(arrays, 0).dtype)',
+    ])},
+    ensures=[
+        'not result.writeable and result.fresh',                                             # a new read-only array
+        'forall_in(0, len(arrays), lambda k: holds(result.dtype, at(arrays, k).dtype))',     # no input is narrowed
+        'implies(forall_in(0, len(arrays), lambda k: at(arrays, k).dtype == at(arrays, 0).dtype), result.dtype == at(arrays, 0).dtype) or len(arrays) == 0',
+        'result.ndim == at(arrays, 0).ndim',
+    ])
